@@ -49,8 +49,15 @@ KINDS = {
     "latin1-sidecar": [("file", "menu.txt", b"menu\n"), ("file", "menu.txt.abstract", b"caf\xe9 au lait\n")],
     "latin1-names": [("file", "f.txt", b"file f\n"), ("file", ".names", b"Path=./f.txt\nName=caf\xe9 f\n")],
     "space": [("file", "sp ace/a&b.txt", b"odd names\n")],
+    # characters that str.splitlines() treats as line ends but a file's readline() does not
+    "ff-gophermap": [("file", "ffm/gophermap", b"info with \x0c form feed\n0Doc \x1c with fs\trel.txt\ninfo \xc2\x85 nel and \xe2\x80\xa8 ls\n1V\x0bT\t..\n"), ("file", "ffm/rel.txt", b"rel\n")],
+    "ff-names": [("file", "f.txt", b"file f\n"), ("file", ".names", b"Path=./f.txt\nName=Form\x0cFeed Name\nAbstract=abs \x1d gs\nNumb=3\n")],
+    "ff-sidecar": [("file", "f.txt", b"file f\n"), ("file", "f.txt.abstract", b"line one\x0cstill line one\nline two \x0b vt\n\x1eline three\n")],
+    # links resolved through other links, to the archive root, and with a trailing slash
+    "link-chain": [("file", "real/f.txt", b"real f\n"), ("link", "alink.txt", "zdir/f.txt"), ("link", "zdir", "real"), ("link", "sub/through.txt", "../zdir/f.txt"), ("link", "sub/zz", "../zdir")],
+    "link-root": [("file", "f.txt", b"file f\n"), ("file", "sub/g.txt", b"file g\n"), ("link", "toroot", "."), ("link", "sub/up", ".."), ("link", "sub/here", "."), ("link", "abs-slash", "/sub/"), ("link", "rel-slash", "sub/")],
 }
-ESCAPES = [("link", "sub/esc.txt", "../../outside.txt"), ("link", "esc2.txt", "../outside.txt"), ("link", "absout.txt", "/../outside.txt")]
+ESCAPES = [("link", "sub/esc.txt", "../../outside.txt"), ("link", "esc2.txt", "../outside.txt"), ("link", "absout.txt", "/../outside.txt"), ("link", "sub/clamped.txt", "../../f.txt"), ("link", "empty-target", "")]
 
 
 class _RawInfo(zipfile.ZipInfo):
@@ -135,6 +142,8 @@ def selectors(entries):
             sels.add("/" + "/".join(parts[:i]))
         if e[0] == "link":
             sels.add("/" + path + "/g.txt")
+            sels.add("/" + path + "/f.txt")
+            sels.add("/" + path + "/sub")
     sels.update({"/missing.txt", "/sub/missing", "/f.txt/x"})
     return sorted(sels)
 
@@ -241,6 +250,22 @@ def check_special(cwdmode):
                         and monitor.reached(e[1], cwd).startswith(os.path.realpath(cwd) + "/") and not monitor.reached(e[1], cwd).startswith(os.path.realpath(root))]
                 if outs:
                     bad.append((form, sel, "outside-root", "serving member %s touched %r" % (sel, outs[:2])))
+        # message selectors into mailbox-shaped members: no such thing inside an archive
+        for sel in ("/S.zip/m.mbox|/MBOX-MESSAGE/1", "/S.zip/md|/MAILDIR-MESSAGE/cur/1:2,S", "/S.zip/md|/MAILDIR-MESSAGE/cur/9:2,S", "/m.mbox|/MBOX-MESSAGE/1", "/md|/MAILDIR-MESSAGE/cur/9:2,S"):
+            for form in ("gopher", "http", "gemini"):
+                monitor.start()
+                r = w.serve(*rig.request(form, sel))
+                ev = monitor.stop()
+                n += 1
+                if r.internal_error:
+                    bad.append((form, sel, "error", r.describe_error()))
+                fam = form
+                if parsers.classify(fam, r.out)[0] != "notfound":
+                    bad.append((form, sel, "message-served", "message selector %s via %s is answered %r" % (sel, form, r.out[:120])))
+                outs = [e for e in ev if e[0] in ("open", "open-w", "os.listdir", "os.scandir", "os.mkdir") and e[1] is not None
+                        and monitor.reached(e[1], cwd).startswith(os.path.realpath(cwd) + "/") and not monitor.reached(e[1], cwd).startswith(os.path.realpath(root))]
+                if outs:
+                    bad.append((form, sel, "outside-root", "message selector %s touched %r" % (sel, outs[:2])))
         for form in ("gopher", "http", "gemini"):
             r = w.serve(*rig.request(form, "/S.zip/md"))
             n += 1
@@ -270,7 +295,7 @@ def check_escapes():
     n = 0
     try:
         rig.write_file(os.path.join(w.root, "tree.zip"), build_zip(entries))
-        for sel in ("/tree.zip", "/tree.zip/sub", "/tree.zip/sub/esc.txt", "/tree.zip/esc2.txt", "/tree.zip/absout.txt"):
+        for sel in ("/tree.zip", "/tree.zip/sub", "/tree.zip/sub/esc.txt", "/tree.zip/esc2.txt", "/tree.zip/absout.txt", "/tree.zip/sub/clamped.txt", "/tree.zip/empty-target"):
             for form in FORMS:
                 r = w.serve(*rig.request(form, sel))
                 n += 1
@@ -278,7 +303,9 @@ def check_escapes():
                     bad.append((form, sel, "reads-outside-archive", "a link member leaving the archive was followed: %r" % r.out[:120]))
                 if r.internal_error:
                     bad.append((form, sel, "error", r.describe_error()))
-                if sel in ("/tree.zip", "/tree.zip/sub") and any(x in r.out for x in (b"esc.txt", b"esc2.txt", b"absout.txt")):
+                if sel in ("/tree.zip", "/tree.zip/sub") and form != "gopherp_info" and not r.internal_error and (b"f.txt" if sel == "/tree.zip" else b"g.txt") not in r.out:
+                    bad.append((form, sel, "archive-unusable", "an archive with link members that lead nowhere no longer lists its good members: %r" % r.out[:200]))
+                if sel in ("/tree.zip", "/tree.zip/sub") and any(x in r.out for x in (b"esc.txt", b"esc2.txt", b"absout.txt", b"clamped.txt", b"empty-target")):
                     bad.append((form, sel, "escaping-link-listed", "a link member leaving the archive is listed: %r" % r.out[:200]))
     finally:
         w.destroy()
